@@ -1728,7 +1728,7 @@ func (p *pkgCtx) rewriteConcurrency(fc *fileCtx) {
 			if !fc.skip[x] {
 				fc.need["vchan"] = true
 				fc.repl(x.Pos(), x.Value.Pos(), "*vchan.Chan[")
-				fc.ins(x.Value.End(), "]", 6)
+				fc.ins(x.Value.End(), "]", 4)
 			}
 		}
 		return true
